@@ -572,6 +572,16 @@ func Copy(x interface{}) interface{} {
 			acc[k] = Copy(v)
 		}
 		return acc
+	case []interface{}:
+		// Arrays (and the maps in them) are part of the value, too.
+		if vv == nil {
+			return x
+		}
+		acc := make([]interface{}, len(vv))
+		for i, v := range vv {
+			acc[i] = Copy(v)
+		}
+		return acc
 	default:
 		return x
 	}
